@@ -147,6 +147,71 @@ def op_sccs(job):
         return {'obs': [], 'raised': type(e).__name__}
 
 
+def op_sccs_history(job):
+    """An API history on ONE DiGraph object: mutators and sccs() queries in the
+    scripted order.  steps: {'op': 'ctor'|'add_nodes', 'nodes': [...]} ('ctor'
+    only as the first step: the nodes go through the constructor),
+    {'op': 'add_neighbors', 'node': l, 'nbs': [...]},
+    {'op': 'sccs', 'trivial': b, 'take': k or None, 'keep': b}: take at most k
+    components from the generator (None: all of it), then drop it (close) or,
+    with keep, leave it suspended and referenced to the end of the history (it
+    is never resumed).  Returned per executed step: what was observed (for a
+    query the components taken, in order, and whether the generator was seen
+    to end); execution stops at the first step that raises."""
+    from zope.testrunner.digraph import DiGraph
+    mode = job['mode']
+    labels = job['universe']
+    if mode == 'hashable':
+        obj = {l: l for l in labels}
+        kw = {'make_hashable': None}
+        back = lambda x: x                      # noqa: E731
+    else:
+        cls = _EqNode if mode == 'id-eq' else _PlainNode
+        obj = {l: cls(l) for l in labels}
+        kw = {}
+        back = lambda x: x.label                # noqa: E731
+    g = None
+    kept = []
+    out = []
+    for s in job['steps']:
+        o = {'raised': ''}
+        try:
+            if s['op'] == 'ctor':
+                g = DiGraph(iter([obj[l] for l in s['nodes']]), **kw)
+                out.append(o)
+                continue
+            if g is None:
+                g = DiGraph(**kw)
+            if s['op'] == 'add_nodes':
+                g.add_nodes(iter([obj[l] for l in s['nodes']]))
+            elif s['op'] == 'add_neighbors':
+                g.add_neighbors(obj[s['node']], iter([obj[l] for l in s['nbs']]))
+            else:
+                o['obs'] = []
+                o['exhausted'] = False
+                it = g.sccs(s['trivial'])
+                while s['take'] is None or len(o['obs']) < s['take']:
+                    try:
+                        c = next(it)
+                    except StopIteration:
+                        o['exhausted'] = True
+                        break
+                    o['obs'].append([back(x) for x in c])
+                if s.get('keep'):
+                    kept.append(it)
+                else:
+                    it.close()
+                del it
+        except Exception as e:  # noqa
+            o = {'raised': type(e).__name__}
+            if s['op'] == 'sccs':
+                o.update(obs=[], exhausted=False)
+            out.append(o)
+            break
+        out.append(o)
+    return {'steps': out}
+
+
 OPS = {k[3:]: v for k, v in list(globals().items()) if k.startswith('op_')}
 
 
